@@ -39,6 +39,22 @@ func (e *Exec) jsonKind(v *IfaceVal) string {
 	return "other"
 }
 
+// endpointKey recognises a harness-defined endpoint URL, possibly followed by a query the
+// code under test appended (constant endpoint ++ symbolic text).
+func endpointKey(ut *Term) (string, bool) {
+	es, ok := ut.strVal()
+	if !ok && ut.op == "str.++" && len(ut.args) > 0 {
+		es, ok = ut.args[0].strVal()
+	}
+	if !ok {
+		return "", false
+	}
+	if i := strings.Index(es, ".invalid/x"); i >= 0 {
+		es = es[:i+len(".invalid/x")]
+	}
+	return es, true
+}
+
 func (w *World) registerJSONIntrinsics() {
 	I := w.intrinsics
 	// verifIDToken(claims) string: an (unsigned) JWT whose payload is the JSON object `claims`
@@ -163,7 +179,7 @@ func (w *World) registerEndpointIntrinsics() {
 	I["(*net/http.Client).Do"] = func(e *Exec, fn *ssa.Function, a []Value) Value {
 		rp := a[1].(*Pointer)
 		endpoint, _ := e.hidden[fmt.Sprintf("outgoing:%d", rp.obj.id)].(*Term)
-		es, ok := endpoint.strVal()
+		es, ok := endpointKey(endpoint)
 		if !ok {
 			e.unsupported("HTTP request to a symbolic endpoint")
 		}
@@ -255,7 +271,7 @@ func (w *World) registerEndpointIntrinsics() {
 	I["(*"+rq+".builder).do"] = func(e *Exec, fn *ssa.Function, a []Value) Value {
 		bp := a[0].(*Pointer)
 		endpoint := e.load(e.structField(bp, "endpoint")).(*Term)
-		es, ok := endpoint.strVal()
+		es, ok := endpointKey(endpoint)
 		if !ok {
 			e.unsupported("HTTP request to a symbolic endpoint")
 		}
